@@ -47,6 +47,9 @@ pub struct Shadow {
     pub session: u32,
     /// C15: twin with the opposite GC setting fed the same payload sequence
     pub twin: Option<Doc>,
+    /// C15: two passive replicas (GC on / GC off) that both clean up formatting by themselves and
+    /// receive the same payload sequence as the node
+    pub pair: Option<(Doc, Doc)>,
     /// C06: messages already applied by this node
     pub delivered: HashSet<MsgId>,
 }
@@ -87,6 +90,10 @@ impl Monitors {
                     // deletions (they travel in the node's update events)
                     cleanup_fmt: false,
                 }));
+                let mk = |k: u64, skip_gc: bool| {
+                    make_doc(&NodeCfg { client_id: n.cfg.client_id + 200_000 + k, skip_gc, utf16: n.cfg.utf16, cleanup_fmt: true })
+                };
+                s.pair = Some((mk(0, false), mk(1, true)));
             }
             shadow.push(s);
         }
@@ -198,6 +205,22 @@ pub fn check_closed(w: &mut World, n: usize, missing: bool) -> VResult {
                 cov.to_vec(),
                 d,
                 r.dump
+            ),
+        ));
+    }
+    // what is deleted is a function of the update set as well: an element that arrives in a
+    // removed container is removed on arrival, on every replica (visible through snapshots,
+    // encoded states and handles kept by the application)
+    let ds = crate::world::doc_ds(&w.nodes[n].doc);
+    if ds != r.ds {
+        return Err(viol(
+            &format!("{}.reference-deleted", prof),
+            format!(
+                "node {} holds the causally closed update set {:?} and shows the same content as the replica that applied the same set in emission order, but not the same elements are deleted\n  node: {:?}\n  ref : {:?}",
+                n,
+                cov.to_vec(),
+                ds,
+                r.ds
             ),
         ));
     }
@@ -398,6 +421,37 @@ fn check_log(w: &mut World, n: usize, _kind: &TxnKind, uid: Option<usize>, pre: 
 fn check_gc(w: &mut World, n: usize, kind: &TxnKind, uid: Option<usize>, pre: &Pre) -> VResult {
     w.stats.oracle_evals += 1;
     let twin = w.mon.shadow[n].twin.clone().unwrap();
+    // the passive pair: same payloads, same order, only the GC setting differs
+    if let Some((pa, pb)) = w.mon.shadow[n].pair.clone() {
+        let mut feed: Vec<(Rc<crate::world::Payload>, Enc)> = Vec::new();
+        if let TxnKind::Remote(msg, enc) = kind {
+            feed.push((msg.payload.clone(), *enc));
+        }
+        if !matches!(kind, TxnKind::Gc) {
+            if let Some(u) = uid {
+                feed.push((w.uids[u].payload.clone(), Enc::V1));
+            }
+        }
+        for (p, enc) in feed.iter() {
+            for t in [&pa, &pb] {
+                if let Err(e) = apply_payload(t, p, *enc) {
+                    return Err(viol("gc.pair", format!("passive replica next to node {} cannot apply a payload the node applied: {}", n, e)));
+                }
+            }
+        }
+        if !feed.is_empty() && !has_missing(&pa) && !has_missing(&pb) {
+            let (a, b) = (doc_dump(&pa), doc_dump(&pb));
+            if a != b {
+                return Err(viol(
+                    "gc.pair",
+                    format!(
+                        "two passive replicas (formatting clean-up on) received the same payloads in the same order as node {} and differ only in their GC setting, but show different content\n  gc on : {}\n  gc off: {}",
+                        n, a, b
+                    ),
+                ));
+            }
+        }
+    }
     match kind {
         TxnKind::Local | TxnKind::Undo => {
             if let Some(u) = uid {
